@@ -79,6 +79,11 @@ HAND_MFD = {
     # (cyclic class) a node-weighted 2-cycle without any natural source or sink: walks start at a and end at b
     "cyc:two_cycle_start_end": ({"fam": "cyc", "nodes": ["a", "b"], "arcs": [["a", "b", None], ["b", "a", None]], "node_w": {"a": 3, "b": 3}},
                                 {"weight_type": "int", "flow_attr_origin": "node", "additional_starts": ["a"], "additional_ends": ["b"]}),
+    # (cyclic class, float weights) two self-loops, one of them carrying 27 x 1397: the generating-set bound calls MinGenSet with
+    # max_multiplicity = largest flow = 37719 (KNOWN FINDING MGS-MULT: its k = 2 model is falsely infeasible, the bound becomes 3)
+    "cyc:selfloops_multiplicity_37719": ({"fam": "cyc", "nodes": ["s", "a", "c", "d", "t"],
+                                          "arcs": [["s", "a", 2087], ["a", "c", 690], ["c", "c", 1380], ["c", "t", 690], ["a", "d", 1397], ["d", "d", 37719], ["d", "t", 1397]]},
+                                         {"weight_type": "float"}),
     # three disjoint source-sink paths carrying 0.1, 0.4, 0.2 (the level sums of the partition constraints are float sums)
     "three_float_paths": ({"fam": "dag", "nodes": ["s", "a", "b", "c", "t"],
                            "arcs": [["s", "a", 0.1], ["a", "t", 0.1], ["s", "b", 0.4], ["b", "t", 0.4], ["s", "c", 0.2], ["c", "t", 0.2]]},
@@ -150,8 +155,14 @@ def _hand_generic(case, inst, kw0, cls, rkey, extra):
         tags["runs"] += 1
         cur = ("exc", obs["exc_type"]) if obs["exc"] else _objective(cls, obs, rkey)
         if _really_differs(cls, rkey, c_ref, c_cur, ref, cur, tags):
-            viol.append({"kind": "option_raises" if obs["exc"] else "option_changes_result", "opt": aname,
-                         "msg": f"{cls}({case['hand_mfd']}: {inst.get('arcs')} {inst.get('node_w', '')} {kw0}; options {aname}): {cur} {obs['exc'] or ''}, with all optimisations off: {ref}"})
+            kind = "option_raises" if obs["exc"] else "option_changes_result"
+            lbk = getattr(obs.get("model"), "_lowerbound_k", None)
+            if not obs["exc"] and ref[0] == "solved" and cur[0] == "solved" and isinstance(lbk, int) and lbk > ref[1] and cur[1] == lbk:
+                # the cause is established: the search started at a 'lower bound' above the size of the decomposition the reference run exhibits
+                kind = "lower_bound_above_optimum"
+            viol.append({"kind": kind, "opt": aname, "lower_bound_used": lbk,
+                         "msg": f"{cls}({case['hand_mfd']}: {inst.get('arcs')} {inst.get('node_w', '')} {kw0}; options {aname}): {cur} {obs['exc'] or ''}, with all optimisations off: {ref}"
+                                + (f" (the search started at lower bound {lbk})" if kind == "lower_bound_above_optimum" else "")})
         else:
             nt.append(f"{case['hand_mfd']}|{aname}")
     return {"v": viol[:4], "nt": nt, "tags": dict(tags), "out": "viol" if viol else "ok"}
